@@ -13,7 +13,7 @@ some callbacks raise.
 import json
 
 PROPS = ('C19',)
-RACE_PROBES = ('relisting', 'parent_deleted_with_members', 'parent_recreated', 'name_recurred', 'callback_raised',
+RACE_PROBES = ('undecodable_member_data', 'relisting', 'parent_deleted_with_members', 'parent_recreated', 'name_recurred', 'callback_raised',
                'member_vanished_during_read', 'notification_before_listing', 'burst')
 SHRINK_KEYS = ('ops',)
 
@@ -45,6 +45,20 @@ def generate(rng, tier='quick', **kw):
       ops.append({'t': round(t, 6), 'op': 'rmparent'})
     else:
       ops.append({'t': round(t, 6), 'op': 'mkparent'})
+  if ops and rng.random() < 0.25:
+    # a child with a member's name whose data cannot be decoded, created (and
+    # possibly deleted again) with nothing else going on around it, so that it
+    # is alone in its notification batch
+    k = rng.randrange(len(ops) + 1)
+    t0 = (ops[k - 1]['t'] if k else 0.0) + 0.6
+    extra = [{'t': round(t0, 6), 'op': 'bad', 'data': rng.choice(['{}', 'not json', '{"serviceEndpoint": {"host": "h", "port": 1}}'])}]
+    shift = 1.2
+    if rng.random() < 0.5:
+      extra.append({'t': round(t0 + 0.6, 6), 'op': 'delbad'})
+      shift = 1.8
+    for o in ops[k:]:
+      o['t'] = round(o['t'] + shift, 6)
+    ops[k:k] = extra
   return {'world': 'w_zk', 'ops': ops, 'pre_members': pre, 'parent_exists': parent,
           'raise_every': rng.choice([0, 0, 3, 5]), 'latency': rng.choice([[0.0002, 0.001], [0.0005, 0.004], [0.001, 0.02]])}
 
@@ -130,6 +144,7 @@ def run(scn):
   base = CLOCK.now
   last = None
   rm_done, mk_done = {}, {}
+  bad_nodes = []
   for op in scn['ops']:
     dt = base + op['t'] - CLOCK.now
     if dt > 0:
@@ -151,6 +166,18 @@ def run(scn):
       if listed.is_set():
         REC.probe('relisting')
         gevent.spawn(relist)
+    elif k == 'bad':
+      if srv._find(PATH) is not None:
+        full = srv.create(PATH + '/member_', op['data'].encode(), sequence=True)
+        bad_nodes.append(full.rsplit('/', 1)[1])
+        REC.probe('undecodable_member_data')
+    elif k == 'delbad':
+      while bad_nodes:
+        name = bad_nodes.pop()
+        try:
+          srv.delete(PATH + '/' + name)
+        except Exception:
+          pass
     elif k == 'other':
       if srv._find(PATH) is not None:
         try:
